@@ -66,3 +66,34 @@ Proof.
   - eexists _, _. split; [vm_compute; reflexivity|]. vm_compute. repeat split; congruence.
   - intros host cap m st. repeat split; vm_compute; reflexivity.
 Qed.
+
+(** a block with a result: reached by fall-through (constant 22) or by a [br 1] carrying 11 out of a
+    nested [if]; the result is consumed by [local.set 1]; a second value block nested in a loop body *)
+Definition val_body : list instr :=
+  [ Block (Some T_i32)
+      [ Basic (BLocalGet 0);
+        If None [ Basic (BConst T_i32 11); Basic (BBr 1) ] [];
+        Basic (BConst T_i32 22) ];
+    Basic (BLocalSet 1);
+    Block None
+      [ Loop None
+          [ Basic (BLocalGet 0); Basic (BEqz T_i32); Basic (BBrIf 1);
+            Block (Some T_i32) [ Basic (BLocalGet 1); Basic (BLocalGet 0); Basic (BBinop T_i32 Add) ];
+            Basic (BLocalSet 1);
+            Basic (BLocalGet 0); Basic (BConst T_i32 1); Basic (BBinop T_i32 Sub); Basic (BLocalSet 0);
+            Basic (BBr 0) ] ] ].
+
+Lemma ex_val :
+  blocks_ok 2 blk_cx val_body = true
+  /\ (exists v' sF, compile_ops blk_cx (flatten_body val_body) (init_vstate None) (init_fstate 2) = Some (v', sF)
+       /\ c_bp sF = [] /\ c_stack sF = []
+       /\ c_next sF < 2147483648 /\ Z.of_nat (length (c_consts sF)) < 2147483648
+       /\ Z.of_nat (length (c_out sF ++ [IReturn])) < 4294967296)
+  /\ (forall host cap m st,
+        exec_instr host cap m 200 st [VI32 3; VI32 0] [] (Block None val_body) = RNormal st [VI32 0; VI32 17] []
+        /\ exec_instr host cap m 200 st [VI32 0; VI32 5] [] (Block None val_body) = RNormal st [VI32 0; VI32 22] []).
+Proof.
+  split; [vm_compute; reflexivity|]. split.
+  - eexists _, _. split; [vm_compute; reflexivity|]. vm_compute. repeat split; congruence.
+  - intros host cap m st. repeat split; vm_compute; reflexivity.
+Qed.
